@@ -10,7 +10,7 @@ ID = "C14"
 LEAN_MODULES = ["Pypika.Props.C14"]
 THEOREMS = ["Pypika.C14.join_guard_iff", "Pypika.C14.join_accepts_known", "Pypika.C14.custom_function_iff",
             "Pypika.C14.custom_function_no_params", "Pypika.C14.case_iff", "Pypika.C14.arity_guard", "Pypika.C14.once_only",
-            "Pypika.C14.update_delete_iff", "Pypika.C14.conflict_handlers", "Pypika.C14.top_iff",
+            "Pypika.C14.update_delete_iff", "Pypika.C14.conflict_handlers", "Pypika.C14.top_iff", "Pypika.C14.returning_iff", "Pypika.C14.returning_accepts_known",
             "Pypika.C14.reject_changes_nothing", "Pypika.C01.table_safe_partial"]
 AGREE = []
 TRUSTED = ["the scenario table below as the reading of 'documented situation' for each guard"]
@@ -87,6 +87,49 @@ def scen_join(rng):
     model = {"op": "guard", "guard": "join", "ct": [ids[n] for n in crit_tabs], "base": [ids[n] for n in known],
              "joined": [ids[n] for n in joined], "item": ids[item]}
     return lines, expect, "join", model
+
+
+def scen_returning(rng):
+    """PostgreSQL RETURNING over INSERT / UPDATE / DELETE / SELECT statements with ON / USING / CROSS joins and extra FROM
+    items; terms over the target, the joined tables, FROM items, unknown tables and table-less fields.  Expected by the
+    rule of the property (foreign = a table that is none of target, FROM item, joined item), and by the model."""
+    names = ["t", "u", "v", "w", "zz"]
+    ids = {n: i + 1 for i, n in enumerate(names)}          # 0 = "no table"
+    lines = ["s_%s = T(%r)" % (n, n) for n in names]
+    kind = rng.choice(["insert", "update", "update", "update", "delete", "select"])
+    froms, joins, target = [], [], None
+    if kind == "insert":
+        chain, target = "PostgreSQLQuery.into(s_t).insert(1)", "t"
+    elif kind == "update":
+        chain, target = "PostgreSQLQuery.update(s_t)", "t"
+        if rng.random() < 0.3:
+            chain += ".from_(s_w)"
+            froms.append("w")
+        for jt in rng.sample(["u", "v"], rng.randint(0, 2)):
+            how = rng.choice(["on", "on", "using", "cross"])
+            chain += {"on": ".join(s_%s).on(s_t.id == s_%s.id)", "using": ".join(s_%s).using('id')", "cross": ".join(s_%s).cross()"}[how].replace("%s", jt)
+            joins.append(jt)
+        chain += ".set(s_t.a, 1)"
+    elif kind == "delete":
+        chain = "PostgreSQLQuery.from_(s_t).delete()"
+        froms.append("t")
+    else:
+        chain = "PostgreSQLQuery.from_(s_t).select('a')"
+        froms.append("t")
+    lines.append("q0 = " + chain)
+    nf = rng.randint(1, 3)
+    ftabs = [rng.choice(["t", "t", "u", "v", "w", "zz", None]) for _ in range(nf)]
+    parts = ["s_%s.c%d" % (n, i) if n else "F('free%d')" % i for i, n in enumerate(ftabs)]
+    term = parts[0]
+    for p_ in parts[1:]:
+        term = rng.choice(["(%s + %s)", "fn.Coalesce(%s, %s)", "(%s * %s)"]) % (term, p_)
+    lines.append("r = q0.returning(%s)" % term)
+    has_dml = kind != "select"
+    known = set(froms) | set(joins) | ({target} if target else set())
+    expect = "QueryException" if (not has_dml or any(n is not None and n not in known for n in ftabs)) else None
+    model = {"op": "guard", "guard": "returning", "has_dml": has_dml, "targets": [0] + ([ids[target]] if target else []),
+             "field_tables": [ids[n] if n else 0 for n in ftabs], "known": [0] + sorted(ids[n] for n in known)}
+    return lines, expect, "pg_returning", model
 
 
 def scen_selfjoin(rng):
@@ -318,7 +361,12 @@ def examine(case):
     if case.get("fixed"):
         lines, expect, guard, model = case["fixed"], case["expect"], case["guard"], None
     else:
-        lines, expect, guard, model = (scen_selfjoin(rng) if rng.random() < 0.15 else scen_join(rng)) if case["join"] else scen_simple(rng)
+        if case["join"]:
+            lines, expect, guard, model = scen_selfjoin(rng) if rng.random() < 0.15 else scen_join(rng)
+        elif rng.random() < 0.12:
+            lines, expect, guard, model = scen_returning(rng)
+        else:
+            lines, expect, guard, model = scen_simple(rng)
     script = "\n".join(lines)
     case["recipe"] = script
     res.key = struct_hash(script)
